@@ -2,4 +2,29 @@
 
 package podeni
 
+import (
+	"context"
+
+	"k8s.io/client-go/tools/record"
+	"sigs.k8s.io/controller-runtime/pkg/client"
+
+	register "github.com/AliyunContainerService/terway/pkg/controller"
+	"github.com/AliyunContainerService/terway/pkg/controller/status"
+)
+
 func VerifPodNumaHints(anno map[string]string) []int { return podNumaHints(anno) }
+
+// VerifNewReconcilePodENI builds the PodENI controller around the given collaborators.
+func VerifNewReconcilePodENI(c client.Client, a register.Interface, trunk, crd bool) *ReconcilePodENI {
+	return &ReconcilePodENI{client: c, scheme: c.Scheme(), aliyun: a, record: record.NewFakeRecorder(100000), trunkMode: trunk, crdMode: crd,
+		nodeStatusCache: status.NewCache[status.NodeStatus]()}
+}
+
+// VerifGCRecords runs one pass of the record collector (fixed-IP TTL, leaked records).
+func (m *ReconcilePodENI) VerifGCRecords(ctx context.Context) { m.gcCRPodENIs(ctx) }
+
+// VerifGCInterfaces runs one pass of the leaked-interface collector.
+func (m *ReconcilePodENI) VerifGCInterfaces(ctx context.Context) {
+	m.gcSecondaryENI(ctx)
+	m.gcMemberENI(ctx)
+}
